@@ -32,7 +32,9 @@ def _split(total, tag):
     """(days, nano) with days*NPD + nano == total and 0 <= nano < NPD, as FRESH symbolic ints tied by an assumption: neither the
     constructor's normalisation branches nor div/mod terms enter the queries."""
     from crosshair.libimpl.builtinslib import SymbolicInt
-    from crosshair.tracers import NoTracing
+    from crosshair.tracers import NoTracing, is_tracing
+    if not is_tracing() or type(total) is int:          # concrete replay: plain arithmetic
+        return total // NPD, total % NPD
     with NoTracing():
         d, n = SymbolicInt("sz_d_" + tag), SymbolicInt("sz_n_" + tag)
     assume(0 <= n < NPD)
